@@ -226,6 +226,25 @@ def main():
         broken.append({"kind": "broken-translator", "detail": out.strip()[-500:]})
     else:
         notes.append("gen: " + out.strip()[-200:])
+    changed_fns = []
+    try:
+        changed_fns = json.loads(out.strip().split("\n")[-1]).get("changed_functions", [])
+    except Exception:
+        pass
+    anchors = []
+    for line in open(os.path.join(ROOT, "properties.jsonl")):
+        try:
+            pj = json.loads(line)
+        except ValueError:
+            continue
+        if pj.get("id") == prop:
+            anchors = [f[len("src/"):] if f.startswith("src/") else f for f in pj.get("anchors", {}).get("files", [])]
+    touched = [k for k in changed_fns if k.split("::")[0] in anchors]
+    # functions in this property's anchor files differ from the bodies the models were written against:
+    # widen the correspondence run (three more random streams) - informational, never an alarm by itself
+    extra_seeds = [seed + 1, seed + 2, seed + 3] if (touched and tier == "quick" and cfg.get("escalate", True)) else []
+    if touched:
+        notes.append("changed functions in anchor files: " + ", ".join(touched[:8]))
 
     # 2. theorems
     proof_timeout = 3000 if tier == "thorough" else 1500
@@ -291,19 +310,20 @@ def main():
                 broken.append({"kind": "broken-correspondence", "detail": "harness build failed (%s)" % v, "error": out[-800:]})
                 continue
             extra_env = dict(ENV, VERIF_RUNDIR=rundir)
-            rc, out = sh([binp, prop, tier, str(seed), rundir, v], cwd=ROOT, timeout=3000, env=extra_env)
-            if rc != 0:
-                harness_ok = False
-                sig = "signal %d" % (-rc) if rc < 0 else "exit %d" % rc
-                broken.append({"kind": "broken-correspondence", "detail": "harness run failed (%s): %s" % (v, sig), "error": out[-800:],
-                               "concrete": rc < 0})
-                continue
-            st = json.load(open(os.path.join(rundir, "stats_%s.json" % v)))
-            evaluations += st["evaluations"]
-            distinct += st["stats"].get("distinct_nontrivial", 0)
-            for k, val in st["stats"].items():
-                stats_all["%s/%s" % (v, k)] = val
-            samples += st["samples"][:3]
+            for sd, label in [(seed, v)] + [(es, "%s_s%d" % (v, i + 2)) for i, es in enumerate(extra_seeds)]:
+                rc, out = sh([binp, prop, tier, str(sd), rundir, label], cwd=ROOT, timeout=3000, env=extra_env)
+                if rc != 0:
+                    harness_ok = False
+                    sig = "signal %d" % (-rc) if rc < 0 else "exit %d" % rc
+                    broken.append({"kind": "broken-correspondence", "detail": "harness run failed (%s): %s" % (label, sig), "error": out[-800:],
+                                   "concrete": rc < 0})
+                    continue
+                st = json.load(open(os.path.join(rundir, "stats_%s.json" % label)))
+                evaluations += st["evaluations"]
+                distinct += st["stats"].get("distinct_nontrivial", 0)
+                for k, val in st["stats"].items():
+                    stats_all["%s/%s" % (label, k)] = val
+                samples += st["samples"][:3]
         shards = sorted(glob.glob(os.path.join(rundir, "cases_*.v")))
         with concurrent.futures.ThreadPoolExecutor(max_workers=16) as ex:
             results = list(ex.map(run_shard, shards))
@@ -416,14 +436,18 @@ def do_replay(prop, cfg, path):
     if d.get("kind") != "counterexample":
         print("replay: not a concrete counterexample; re-run: ./check %s %s" % (prop, d.get("tier", "quick")))
         return
-    v, cid, seed, tier = d["variant"], d["id"], d["seed"], d["tier"]
+    label, cid, seed, tier = d["variant"], d["id"], d["seed"], d["tier"]
+    v = label
+    mm = re.match(r"(.*)_s(\d+)$", label)
+    if mm:   # an escalated run: same build variant, later random stream
+        v, seed = mm.group(1), seed + int(mm.group(2)) - 1
     rc, out, binp = build_harness(v, hooks=cfg.get("hooks", True))
     rundir = os.path.join(BUILD, "replay", prop)
     shutil.rmtree(rundir, ignore_errors=True)
     os.makedirs(rundir)
-    sh([binp, prop, tier, str(seed), rundir, v], cwd=ROOT, timeout=3000, env=dict(ENV, VERIF_RUNDIR=rundir))
+    sh([binp, prop, tier, str(seed), rundir, label], cwd=ROOT, timeout=3000, env=dict(ENV, VERIF_RUNDIR=rundir))
     term = None
-    for p in glob.glob(os.path.join(rundir, "cases_%s_*.v" % v)):
+    for p in glob.glob(os.path.join(rundir, "cases_%s_*.v" % label)):
         for line in open(p):
             m = re.match(r"\((\d+), (.*)\);?$", line.strip())
             if m and int(m.group(1)) == cid:
